@@ -34,7 +34,8 @@ ASSUMPTIONS = [
 DECIDING = ['backend module lazily imported', 'constructor calls == model', 'device query calls == model',
             'name listings == model', 'set_backend rebinds top-level functions']
 TIMEOUT = {'quick': 300, 'thorough': 900}
-ENV_FULL = True        # cheap enough: every shard runs once in each interpreter environment (core.ENV_MODES)
+ENV_FULL = 'both'      # cheap enough (an exhaustive grid, the same in both tiers): every shard runs once in each
+                       # interpreter environment (core.ENV_MODES), in the thorough tier too
 VARIANTS = {'vmonbk_a': (True, True), 'vmonbk_b': (True, False), 'vmonbk_c': (False, True),
             'vmonbk_d': (False, False)}
 ENVV = ('MIDO_BACKEND', 'MIDO_DEFAULT_INPUT', 'MIDO_DEFAULT_OUTPUT', 'MIDO_DEFAULT_IOPORT')
